@@ -516,7 +516,7 @@ static void op_loads(const std::string &datahex, const std::string &nss, out &o)
     {
         std::string e(ns[i], '\0');
         size_t len = std::min(ns[i], d.size() - pos);
-        memcpy(&e[0], d.data() + pos, len);
+        if (len) memcpy(&e[0], d.data() + pos, len);
         pos += len;
         if (got[i] != e) o.fail("loads(" + std::to_string(ns[i]) + ") is not the available prefix padded with zeros");
         if (len < ns[i]) tag1(o, "truncated");
@@ -1022,7 +1022,7 @@ static void gen(rng &r, const std::string &tier)
     // (8) probes of the recorded finding C09-archive-reader-unbounded: the archive reader on a truncated encoding
     {
         struct { const char *d; const char *v; int k; } pr[] = {
-            {"u32", "01020304", 2}, {"str", "\"616263\"", 4}, {"V(u16)", "[0001,0002]", 5}, {"M(u8,str)", "{01:\"41\"}", 3},
+            {"u32", "01020304", 2}, {"str", "\"616263\"", 4}, {"V(i16)", "[0001,0002]", 5}, {"M(u8,str)", "{01:\"41\"}", 3},
             {"u8", "07", 0}, {"P(u8,i32)", "(01,00000002)", 1}, {"V(str)", "[\"41\",\"4242\"]", 6}, {"S(u8,i32,i16)", "(01,00000002,0003)", 6},
         };
         for (int i = 0; i < (th ? 8 : 4); i++) printf("@F:C09-archive-reader-unbounded ta %s %s %d\n", pr[i].d, pr[i].v, pr[i].k);
